@@ -103,6 +103,59 @@ fn scenario(seed: u64, k: u64, out: &Out, chain: &Chain, now: u64) {
         if w.dead {
             break;
         }
+        let churn = rng.below(40);
+        if churn == 0 && sims.len() < 14 {
+            // a new honest peer is proved in mid-session: its check point vector starts at the client's startup check point,
+            // far behind the vectors of the peers that have been drained by earlier finalizations
+            let pi = w.add_peer(0, true);
+            let id = PeerIndex::new(100 + sims.len());
+            w.peers[pi].id = id;
+            w.peers[pi].connected = true;
+            w.c().peers.add_peer(id);
+            if w.c().peers.mock_prove_state(id, tipvh.clone()).is_err() {
+                break;
+            }
+            let start = w.c().peers.get_all_proved_check_points().get(&id).map(|(s, v)| *s + v.len() as u32 - 1).unwrap_or(0);
+            next_start.insert(pi, start);
+            sims.push(PeerSim { pi, id, deviates_from: None, salt: 0 });
+            out.cell(&format!("late-joiner|behind-final-index={}", stored_cps(&w).0 > start));
+            continue;
+        } else if churn == 1 {
+            // a peer leaves
+            let live: Vec<usize> = (0..sims.len()).filter(|i| w.peers[sims[*i].pi].connected).collect();
+            if live.len() > 1 {
+                let s = &sims[*rng.pick(&live)];
+                let _ = w.disconnect(s.pi);
+                out.cell("peer-left");
+            }
+            continue;
+        } else if churn == 2 {
+            // restart: Peers::new starts every vector at the stored last check point; the same peers are proved again
+            let before = stored_cps(&w);
+            if w.restart().is_err() {
+                break;
+            }
+            let after = stored_cps(&w);
+            out.eval(1);
+            out.cell("restart");
+            if after != before {
+                out.violation("C07.R2", "C07|final-check-points-changed-by-restart", json!({"scenario": desc, "before_max": before.0, "after_max": after.0}), k);
+            }
+            for (i, s) in sims.iter_mut().enumerate() {
+                let id = PeerIndex::new(1000 + step as usize * 20 + i);
+                s.id = id;
+                w.peers[s.pi].id = id;
+                w.peers[s.pi].connected = true;
+                w.c().peers.add_peer(id);
+                if w.c().peers.mock_prove_state(id, tipvh.clone()).is_err() {
+                    break;
+                }
+                let start = w.c().peers.get_all_proved_check_points().get(&id).map(|(s, v)| *s + v.len() as u32 - 1).unwrap_or(0);
+                next_start.insert(s.pi, start);
+            }
+            contradicting_since.clear();
+            continue;
+        }
         if rng.chance(3, 5) {
             // a check point message from a random peer
             let s = &sims[rng.pick_idx(sims.len())];
